@@ -3,7 +3,8 @@
    under is  prefix ++ "/" ++ relative path  whenever the prefix is not empty (whatever it ends in:
    a prefix "lib/" gives "lib//a.txt"), and the relative path alone for the empty prefix. *)
 From Coq Require Import Lia.
-From Ructe Require Import Nom Utf8 Emit Compile Md5 Static Tables Build MapProofs ScriptNI.
+From Coq Require Import Permutation FinFun.
+From Ructe Require Import Nom Utf8 Emit Compile Md5 Static Tables Build MapProofs StaticProofs ScriptNI PlanPaths.
 Local Open Scope list_scope.
 
 (* the documented rule for one level *)
@@ -52,6 +53,51 @@ Proof.
       pose proof (dmax_in _ _ _ (Hl nm (Dir sub) (or_introl eq_refl))) as D. rewrite depth_dir in D.
       f_equal. apply IH; lia. }
   apply G. auto.
+Qed.
+
+(* ---- distinct names: in a tree whose directories list distinct names without '/', no two files get the same relative path ---- *)
+Lemma rels_head : forall fuel es r, In r (rels fuel es) ->
+  exists n x, In (n, x) es /\ (r = n \/ exists r', r = n ++ 47%N :: r').
+Proof.
+  destruct fuel as [|fuel]; [intros es r []|]. cbn [rels].
+  induction es as [|[n [c|sub]] es IH]; intros r I; cbn [flat_map] in I; [destruct I| |]; apply in_app_iff in I; destruct I as [I|I].
+  - destruct I as [<-|[]]. exists n, (File c). split; [now left|now left].
+  - destruct (IH r I) as [m [y [Im H]]]. exists m, y. split; [now right|exact H].
+  - apply in_map_iff in I. destruct I as [r' [<- _]]. exists n, (Dir sub). split; [now left|right; now exists r'].
+  - destruct (IH r I) as [m [y [Im H]]]. exists m, y. split; [now right|exact H].
+Qed.
+
+Lemma rels_nodup : forall fuel es, wf_es es -> NoDup (rels fuel es).
+Proof.
+  induction fuel as [|fuel IH]; intros es W; [constructor|].
+  induction es as [|[n x] es IHes]; [constructor|].
+  inversion W as [es0 ND NS SUB]; subst. cbn [map] in ND. inversion ND as [|? ? NI ND']; subst.
+  assert (W' : wf_es es).
+  { constructor; [exact ND'|intros m y I; eapply NS; right; exact I|intros m sub I; eapply SUB; right; exact I]. }
+  change (rels (S fuel) ((n, x) :: es)) with
+    (match x with File _ => [n] | Dir sub => map (fun r => n ++ [47%N] ++ r) (rels fuel sub) end ++ rels (S fuel) es).
+  apply NoDup_app_intro.
+  - destruct x as [c|sub]; [constructor; [intros []|constructor]|].
+    apply Injective_map_NoDup; [intros a c E; apply app_inv_head in E; now apply app_inv_head in E|apply IH; eapply SUB; left; reflexivity].
+  - exact (IHes W').
+  - intros r I1 I2.
+    assert (H1 : r = n \/ exists r', r = n ++ 47%N :: r').
+    { destruct x as [c|sub]; [destruct I1 as [<-|[]]; now left|].
+      apply in_map_iff in I1. destruct I1 as [r' [<- _]]. right. now exists r'. }
+    destruct (rels_head (S fuel) es r I2) as [m [y [Im H2]]].
+    assert (Nn : nos n) by (eapply NS; left; reflexivity).
+    assert (Nm : nos m) by (eapply NS; right; exact Im).
+    assert (D : n <> m). { intros ->. apply NI. apply in_map_iff. exists (m, y). split; [reflexivity|exact Im]. }
+    destruct H1 as [E1|[r1 E1]], H2 as [E2|[r2 E2]]; subst r.
+    + congruence.
+    + apply Nn. rewrite E2. apply in_app_iff. right. now left.
+    + apply Nm. rewrite <- E2. apply in_app_iff. right. now left.
+    + apply D. eapply split_unique; eassumption.
+Qed.
+
+Lemma pfx_inj to : Injective (pfx to).
+Proof.
+  intros a c. unfold pfx. destruct (beqb to []); [auto|]. intros E. apply app_inv_head in E. now apply app_inv_head in E.
 Qed.
 
 Section Walk.
@@ -174,5 +220,27 @@ Section Walk.
       unfold run_ops. rewrite fold_left_app. unfold ops_as. rewrite <- fold_map. reflexivity.
     - intros dir es. rewrite add_files_spec, Hs. unfold run_ops. rewrite fold_left_app. unfold ops_hashed.
       rewrite <- fold_map. reflexivity.
+  Qed.
+  (* a walk over a well-formed tree publishes pairwise distinct names, so STATICS lists every file below the directory exactly once *)
+  Lemma walk_names_distinct : forall fuel dir to es, named fuel es = true -> wf_es es -> NoDup (map snd (walk fuel dir to es)).
+  Proof.
+    intros fuel dir to es Hn W. rewrite walk_names by exact Hn. apply Injective_map_NoDup; [apply pfx_inj|now apply rels_nodup].
+  Qed.
+  Lemma pubs_ops_as l : map snd (pubs uni_alnum (ops_as l)) = map snd l.
+  Proof.
+    induction l as [|pu l IH]; [reflexivity|].
+    change (ops_as (pu :: l)) with (OpFileAs (fst pu) (snd pu) :: ops_as l).
+    change (pubs uni_alnum (OpFileAs (fst pu) (snd pu) :: ops_as l)) with ((rust_ident uni_alnum (snd pu), snd pu) :: pubs uni_alnum (ops_as l)).
+    cbn [map snd]. now rewrite IH.
+  Qed.
+  Lemma walk_statics_complete : forall header s fuel dir to es, st s = empty_statics header ->
+    S (dmax es) <= fuel -> named (S (dmax es)) es = true -> wf_es es ->
+    Permutation (map fst (names_r (st (AFA fuel s dir to es)))) (map (pfx to) (rels (S (dmax es)) es)).
+  Proof.
+    intros header s fuel dir to es Hs Hf Hn W.
+    destruct (walks_extend_a_run header [] s Hs) as [H _]. rewrite (H fuel dir to es Hf). cbn [app].
+    assert (E : map snd (pubs uni_alnum (ops_as (walk (S (dmax es)) dir to es))) = map (pfx to) (rels (S (dmax es)) es)).
+    { rewrite pubs_ops_as. now apply walk_names. }
+    rewrite <- E. apply run_complete. rewrite E. apply Injective_map_NoDup; [apply pfx_inj|now apply rels_nodup].
   Qed.
 End Walk.
